@@ -271,6 +271,7 @@ def showDocOut (o : Doc.DocOut) : String :=
   " render=" ++ showStage o.render ++
   " att=" ++ showLog o.attachLog ++ " paint=" ++ showLog o.paintLog ++
   " embedded=" ++ (if writeOk then showNats o.embedded else "[]") ++
+  " tree=" ++ (if writeOk then (match Doc.embeddedFilesTree o.embedded with | none => "none" | some n => toString n) else "-") ++
   " annots=[" ++ (if writeOk then ",".intercalate (o.annots.filterMap (fun a => a.map toString)) else "") ++ "]" ++
   " opens=" ++ (match o.write with
     | .error ⟨"FileNotFoundError", _⟩ => "-"
